@@ -203,8 +203,9 @@ class Gen:
                 else:
                     names = {}
                     txt = self.coq(st.value, names)
+                    import re
                     for py, p in names.items():
-                        txt = txt.replace(p, self.ref(py))     # parameter names are unique tokens (x<name>)
+                        txt = re.sub(r"\b%s\b" % re.escape(p), lambda m_, r_=self.ref(py): r_, txt)
                     self.incr_env[id(st.value)] = {py: self.env[py][1] for py in names}
                     self.jde_incr.append((txt, st.value))
             self.define(name, node)
@@ -274,7 +275,7 @@ Open Scope string_scope.
 Ltac2 Set Whnf.is_blocked as old := fun c =>
   Ltac2.Bool.or (old c) (Ltac2.List.exist (Ltac2.Constr.equal c)
     ['@Epoch_get_date; '@Epoch_is_leap; '@Epoch_get_doy; '@Angle_reduce_deg; '@Angle___init__;
-     '@Angle_to_positive; '@Epoch___init__]).
+     '@Angle_to_positive; '@Epoch___init__; '@ifv]).
 Ltac lit_norm := repeat match goal with |- context [Rlit ?m ?e] =>
   let r := eval cbv -[IZR Rdiv Rmult Rinv Rplus Ropp] in (Rlit m e) in change (Rlit m e) with r end.
 """
